@@ -413,7 +413,8 @@ def _eval_model(inputs):
             if "icdf" in groups:
                 np.random.seed(seed % (2**32))  # marginal_icdf draws from the global generator
                 try:
-                    for pset in ([0.5], [0.05, 0.95], [0.001, 0.999], [0.0002, 0.3]):
+                    # the last set needs 2.5e6 realisations (bulk and far tail asked for in ONE call)
+                    for pset in ([0.5], [0.05, 0.95], [0.001, 0.999], [0.0002, 0.3], [0.5, 1 - 4e-5]):
                         pa = np.array(pset)
                         xq = np.asarray(ghm.marginal_icdf(pa, dim), dtype=float)
                         n_mc = max(int(100.0 / min(pa.min(), 1 - pa.max())), 100000)
